@@ -1,19 +1,44 @@
 """C10: eager evaluation returns exactly the lazy view; composition is unobservable."""
 import importlib
 import itertools
+import os
+from concurrent.futures import ThreadPoolExecutor
 
 import numpy as np
 
+from .. import build as B
+from .. import run as R
+from .. import c10_gen as G
 from .. import viewrun as V
-from ..util import fmt_vec, HookAcc, Tok, all_shapes
+from ..core import Inconclusive
+from ..util import fmt_vec, HookAcc, Tok, all_shapes, split_hooks
 
 CLAIM = dict(
-    technique="runtime monitoring: every view execution of the value-level workloads is re-read through 4 routes (lazy view(i...), eval row-major, eval column-major + raw buffer, eval into a sentinel-filled caller output) and compared route against route; fused vs staged evaluation of 2-3 stage pipelines; eval-skip hook",
-    text="For every case of the value-level workloads (C03..C08, C16, C17 generators that exist in this tree) the same view object is read lazily at every index and evaluated eagerly three ways; shapes and all elements must agree, the column-major result's raw buffer must be the F-order flattening, a supplied output pre-filled with a sentinel must be completely overwritten, and the evaluator's silent early return (hook EVAL_SKIP) must never fire. 16 hand-written pipelines (chains of 2 and 3, binary trees) are evaluated fused (view of view) and staged (inner view evaluated to a concrete array first) on seeded NumPy-valid arguments and must agree with each other and with NumPy. Held-on-observed.",
-    note="Trusted: the harness' own odometer; NumPy for the pipelines' independent reference. Only dynamic result storage is exercised here (fixed/bounded result kinds: C09/C11).",
+    technique="runtime monitoring: every view execution of the value-level workloads is re-read through 5 routes (lazy view(i...), eval row-major, eval column-major + raw buffer, eval into a sentinel-filled caller output, row-major and column-major) and compared route against route; fused vs staged evaluation of 16 hand-written and ~60 (quick) / ~350 (thorough) GENERATED 2-3 stage pipelines (vf/c10_gen.py: stage registry, compile-probed allow-list vf/c10_supported.json) against each other and against NumPy; eval-skip hook",
+    text="For every case of the value-level workloads (C03..C08, C16, C17 generators that exist in this tree) the same view object is read lazily at every index and evaluated eagerly three ways; shapes and all elements must agree, the column-major result's raw buffer must be the F-order flattening, a supplied output (row-major, and column-major) pre-filled with a sentinel must be completely overwritten with the view's elements at their logical indices, and the evaluator's silent early return (hook EVAL_SKIP) must never fire. Pipelines: 16 hand-written ones plus generated compositions of 48 stages (reshape, transpose, flip, moveaxis, swapaxes, expand_dims, squeeze, tile, repeat, roll, pad, slice, take, broadcast_to, unary/binary/scalar ufuncs, sum/prod/amax reductions with int/list/None axis and keepdims, cumsum/cumprod, concatenate, stack, where, matmul, outer, tensordot, softmax, max_pool2d) in the structure classes chain2, chain3, tree1l/tree1r (op(f(a),b) / op(a,g(b))), tree2 (op(f(a),g(b))), tree3 and '.lifted' (an optional inner view handed to the outer operation without unwrapping), over dynamic leaves and hybrid leaves (run-time shape, bounded buffer: the result storage of the fused pipeline is inferred as bounded); each is evaluated fused (view of views) and staged (every inner view evaluated to a concrete array first) on seeded NumPy-valid arguments (10 / 30 argument sets per pipeline) and must agree with each other and with the NumPy model in shape and every element, and both must satisfy the route rules. A run executes a deterministic core (reductions / accumulations over enlarging inner views, outer operations over concatenate / stack, one representative per class) plus VERIF_SEED-chosen translation units of the allow-list (~4100 pipelines that compile on the unchanged tree). Held-on-observed.",
+    note="Trusted: the harness' own odometer; NumPy (max_pool2d: nested-loop model) for the pipelines' independent reference; integer-valued data with unique labels, small magnitudes where products are involved (cases whose intermediate values leave int32 are not generated), float pipelines (softmax) compared within 4e-6*max(1,|intermediate|). Compositions that do not compile on the unchanged tree are outside the allow-list ('rejected' in vf/c10_supported.json); a translation unit that stops compiling is inconclusive. Known-finding classes of other properties are not generated (squeeze of an all-ones shape, matmul with a 1-d operand); classes suspended pending triage are listed in the evidence (excluded_pending_triage). Fixed / constant-shape result kinds: C09/C11.",
     ref="DESIGN.md 4/C10")
 HARNESS = ["c10_pipes_a", "c10_pipes_b", "c10_pipes_c"]
-TARGETS_QUICK = [("c10_pipes_a", "asan"), ("c10_pipes_b", "asan"), ("c10_pipes_c", "asan")]
+
+
+def gen_targets(chunks, flavor="asan"):
+    """build targets of generated translation units (vf/c10_gen.py); the name is a hash of the text, so that the binaries are
+    shared by all seeds and both tiers"""
+    out = []
+    for c in chunks:
+        text = G.gen_tu(c)
+        nm = "c10g_" + G.hashlib.sha1(text.encode()).hexdigest()[:12]
+        out.append(B.Target(nm + ".cpp", flavor, name=nm, text=text))
+    return out
+
+
+def gen_quick_targets():
+    """the generated translation units of the quick tier for the current VERIF_SEED (prebuilt by setup.sh)"""
+    seed = int(os.environ.get("VERIF_SEED", "0") or 0)
+    return gen_targets(G.select("quick", seed))
+
+
+TARGETS_QUICK = [("c10_pipes_a", "asan"), ("c10_pipes_b", "asan"), ("c10_pipes_c", "asan"), gen_quick_targets]
 
 from ..integrated import VALUE as VALUE_MODULES
 
@@ -59,8 +84,12 @@ def check_routes(ctx, op, rec, det, tag=""):
     """route-vs-route comparison of one emit_view_all record. returns number of problems"""
     v = rec["V"]
     n = 0
-    for route in ("E", "C", "O"):
+    for route in ("E", "C", "O", "OC"):
         r = rec.get(route)
+        if route == "OC" and r is None:
+            # eval into a caller-supplied COLUMN-MAJOR output: not emitted for bool / scalar / 0-dim / too large results (and by
+            # binaries built before the route existed)
+            continue
         if route == "O" and r is None and v is not None and (v.get("scalar") or (v.get("data") is None)):
             continue
         if route == "C" and r is None and v is not None and v.get("scalar"):
@@ -78,7 +107,7 @@ def check_routes(ctx, op, rec, det, tag=""):
             continue
         if not V.same_array(r, v):
             sym = "shape" if (r.get("shape") != v.get("shape") or bool(r.get("scalar")) != bool(v.get("scalar"))) else "element"
-            if route == "O" and sym == "element" and any(x in (V_SENT, 113) for x in (r.get("data") or [])):
+            if route in ("O", "OC") and sym == "element" and any(x in (V_SENT, 113) for x in (r.get("data") or [])):
                 sym = "output_not_written"
             ctx.violation("%s:%s:%s" % (op, route, sym), "%s%s: route %s gives shape %s data %s, lazy view gives shape %s data %s" % (
                 op, tag, route, r.get("shape"), (r.get("data") or [])[:12], v.get("shape"), (v.get("data") or [])[:12]), det)
@@ -258,6 +287,148 @@ def close_arrays(a, b, ulps):
     return bool(np.all((np.abs(x - y) <= tol) | (np.isnan(x) & np.isnan(y))))
 
 
+# ---------------------------------------------------------------- generated pipelines (vf/c10_gen.py)
+class GenHarness:
+    """The generated translation units of one run (deterministic core + VERIF_SEED-chosen chunks of the compile-probed
+    allow-list) and their cases; `run` has the interface of viewrun.run_module_cases so that C02 can re-read the same
+    executions."""
+
+    def __init__(self, tier, seed):
+        self.tier = tier
+        self.seed = seed
+        self.chunks = G.select(tier, seed)
+        self.plan = G.gen_cases(self.chunks, seed, tier)      # [(chunk index, spec, cases)]
+        self.cases = []
+        for ci, spec, cs in self.plan:
+            for c in cs:
+                c["tu"] = ci
+                c["spec"] = spec
+                self.cases.append(c)
+
+    def targets(self, flavor="asan"):
+        return gen_targets(self.chunks, flavor)
+
+    def run(self, cases, flavor="asan", parse=None, wrapper=None, timeout=900):
+        """-> [CaseResult] in case order; raises Inconclusive if a translation unit no longer compiles"""
+        parse = parse or parse_pipe
+        ts = self.targets(flavor)
+        res = B.build(ts)
+        bad = [(t, k) for k, t in enumerate(res) if t.error]
+        if bad:
+            t, k = bad[0]
+            raise Inconclusive("generated translation unit %s[%s] with pipelines %s no longer compiles (%d of %d units): %s" % (
+                t.name, flavor, [G.render(sp["t"], sp["k"]) for sp in self.chunks[k]], len(bad), len(res), (t.error or "")[-500:].replace("\n", " | ")))
+        out = []
+        per_tu = {}
+        for k, c in enumerate(cases):
+            cid = str(k + 1)
+            line = "%s %s %s" % (cid, c["op"], c["args"])
+            # (for the checks that key on cr.m["op"] - C02 - the operation is the readable cause, not the hashed VH_OP name)
+            cr = V.CaseResult(dict(c, op=G.key_prefix(c["spec"]), vh_op=c["op"]), line)
+            out.append(cr)
+            per_tu.setdefault(c["tu"], []).append((cid, line, cr))
+
+        def one(item):
+            tu, lst = item
+            return tu, lst, R.run_cases(res[tu].binary, [(cid, line) for cid, line, _ in lst], nbatch=1, wrapper=wrapper, timeout=timeout)
+
+        with ThreadPoolExecutor(max_workers=B.JOBS) as ex:
+            done = list(ex.map(one, sorted(per_tu.items())))
+        for tu, lst, (results, crashes, touts) in done:
+            byid = {cid: cr for cid, _, cr in lst}
+            for c in crashes:
+                if c.case_id in byid:
+                    byid[c.case_id].crash = c
+                else:
+                    cr = V.CaseResult(dict(op="<exit>", args="", tu=tu, spec=None), "")
+                    cr.crash = c
+                    out.append(cr)
+            for t in touts:
+                if t in byid:
+                    byid[t].timeout = True
+            for cid, _, cr in lst:
+                if cid in results:
+                    toks, hooks = split_hooks(results[cid])
+                    cr.hooks = hooks
+                    cr.raw = toks
+                    try:
+                        cr.rec = parse(toks)
+                    except (ValueError, IndexError) as e:
+                        cr.rec = {"error": "unparsable: %s: %s" % (e, " ".join(toks[:40]))}
+        return out
+
+
+def check_generated(ctx, gh, acc):
+    """part C: generated pipelines: fused lazy == staged lazy == NumPy model (shape and every element), the route-vs-route
+    rules for both. Returns (number of cases decided, crashes, per-pipeline table)."""
+    res = gh.run(gh.cases, "asan", parse_pipe)
+    ndone = ncrash = 0
+    per = {}
+    for ci, spec, cs in gh.plan:
+        per[G.spec_key(spec)] = dict(G.describe(spec), cases=0, generated=len(cs))
+    for cr in res:
+        spec = cr.m.get("spec")
+        if spec is None:
+            ncrash += 1
+            ctx.violation("gen:runner:crash_outside_case:%s" % cr.crash.kind(), "a generated pipeline program died outside a case: %s" % cr.crash.kind(),
+                          dict(stderr=cr.crash.stderr[-2500:]))
+            continue
+        pre = G.key_prefix(spec)
+        what = "%s %s" % (G.cls_name(spec), G.render(spec["t"], spec["k"]))
+        det = dict(pipeline=G.describe(spec), spec=G.spec_key(spec), leaf_shapes=cr.m["leaf_shapes"], stage_args=cr.m["stage_args"], line=cr.line[:3000])
+        if cr.crash is not None:
+            ncrash += 1
+            ctx.violation("%s:crash:%s" % (pre, cr.crash.kind()), "generated pipeline %s died on leaves %s args %s: %s" % (
+                what, cr.m["leaf_shapes"], cr.m["stage_args"], cr.crash.kind()), dict(det, stderr=cr.crash.stderr[-2500:]))
+            continue
+        if cr.timeout:
+            ctx.inconc("timeout in generated pipeline %s" % what)
+            continue
+        for (site, f0, f1) in V.hook_problems(cr, acc):
+            if site == "eval_skip":
+                ctx.violation("%s:eval_skip" % pre, "%s: an evaluator returned without writing its output (leaves %s args %s)" % (what, cr.m["leaf_shapes"], cr.m["stage_args"]), det)
+        if cr.rec is None:
+            continue
+        raw = cr.raw or []
+        if "EXC" in raw:
+            k = raw.index("EXC")
+            txt = " ".join(raw[k:k + 2])
+            if "leaf-exceeds-capacity" in txt or "ERR" in raw:
+                ctx.inconc("generator error in %s: %s" % (what, txt))
+            else:
+                ctx.violation("%s:exception" % pre, "generated pipeline %s threw %s on leaves %s args %s" % (what, txt[:160], cr.m["leaf_shapes"], cr.m["stage_args"]), det)
+            continue
+        if "error" in cr.rec:
+            if "ERR" in raw:
+                ctx.inconc("generator error in %s: %s" % (what, cr.rec["error"][:200]))
+            else:
+                ctx.violation("%s:malformed_record" % pre, cr.rec["error"][:300], det)
+            continue
+        ctx.ev()
+        ndone += 1
+        per[G.spec_key(spec)]["cases"] += 1
+        F, Gs = cr.rec["F"], cr.rec["G"]
+        exp = cr.m["exp"]
+        if F is None or Gs is None or F["V"] is None or Gs["V"] is None:
+            who = "fused" if (F is None or F["V"] is None) else "staged"
+            ctx.violation("%s:nothing:%s" % (pre, who), "generated pipeline %s: the %s evaluation is Nothing for NumPy-valid arguments (leaves %s args %s)" % (
+                what, who, cr.m["leaf_shapes"], cr.m["stage_args"]), det)
+            continue
+        approx = cr.m.get("approx")
+        for nm_, rec in (("fused", F), ("staged", Gs)):
+            check_routes(ctx, pre + ":" + nm_, rec, det)
+            why = V.compare_np(rec["V"], exp, exact=not approx, rtol=2e-5, atol=cr.m.get("tol", 0.0))
+            if why:
+                ctx.violation("%s:%s:vs_numpy" % (pre, nm_), "generated pipeline %s (%s) on leaves %s args %s: %s" % (what, nm_, cr.m["leaf_shapes"], cr.m["stage_args"], why), det)
+        same = V.same_array(F["V"], Gs["V"]) if not approx else (close_arrays(F["V"], Gs["V"], 4) or V.compare_np(F["V"], V.to_np(Gs["V"]), exact=False, rtol=2e-5, atol=cr.m.get("tol", 0.0)) is None)
+        if not same:
+            ctx.violation("%s:fused_vs_staged" % pre, "generated pipeline %s on leaves %s args %s: evaluating the view of views gives shape %s %s..., evaluating the inner views first gives shape %s %s..." % (
+                what, cr.m["leaf_shapes"], cr.m["stage_args"], F["V"].get("shape"), (F["V"].get("data") or [])[:10], Gs["V"].get("shape"), (Gs["V"].get("data") or [])[:10]), det)
+        if exp.size > 1:
+            ctx.seen(("gen", G.spec_key(spec), cr.m["args"]))
+    return ndone, ncrash, per
+
+
 def run(ctx):
     acc = HookAcc()
     ncrash = 0
@@ -313,35 +484,58 @@ def run(ctx):
         if cr.rec is None:
             continue
         if "error" in cr.rec:
-            ctx.violation("%s:harness_error" % op, cr.rec["error"][:300], det)
+            ctx.violation("%s:malformed_record" % op, cr.rec["error"][:300], det)
             continue
         ctx.ev()
         npipe += 1
-        F, G = cr.rec["F"], cr.rec["G"]
+        F, Gs = cr.rec["F"], cr.rec["G"]
         exp = cr.m["exp"]
-        if F is None or G is None or F["V"] is None or G["V"] is None:
+        if F is None or Gs is None or F["V"] is None or Gs["V"] is None:
             ctx.violation("%s:nothing" % op, "pipeline %s %s: %s is Nothing for NumPy-valid arguments" % (op, cr.m["args"], "fused" if (F is None or F["V"] is None) else "staged"), det)
             continue
         approx = cr.m.get("approx")
-        for nm_, rec in (("fused", F), ("staged", G)):
+        for nm_, rec in (("fused", F), ("staged", Gs)):
             check_routes(ctx, op + ":" + nm_, rec, det)
             why = V.compare_np(rec["V"], exp, exact=not approx, rtol=2e-5, atol=1e-6)
             if why:
                 ctx.violation("%s:%s:vs_numpy" % (op, nm_), "pipeline %s %s (%s): %s" % (op, cr.m["args"], nm_, why), det)
-        same = V.same_array(F["V"], G["V"]) if not approx else close_arrays(F["V"], G["V"], 2)
+        same = V.same_array(F["V"], Gs["V"]) if not approx else close_arrays(F["V"], Gs["V"], 2)
         if not same:
             ctx.violation("%s:fused_vs_staged" % op, "pipeline %s %s: evaluating the view of a view gives shape %s %s..., evaluating the inner view first gives shape %s %s..." % (
-                op, cr.m["args"], F["V"].get("shape"), (F["V"].get("data") or [])[:10], G["V"].get("shape"), (G["V"].get("data") or [])[:10]), det)
+                op, cr.m["args"], F["V"].get("shape"), (F["V"].get("data") or [])[:10], Gs["V"].get("shape"), (Gs["V"].get("data") or [])[:10]), det)
         if exp.size > 1:
             ctx.seen((op, cr.m["args"]))
         if len(ctx.samples) < 6 and exp.size > 3 and ctx.rng.random() < 0.02:
-            ctx.sample(dict(pipeline=op, args=cr.m["args"], fused_shape=F["V"].get("shape"), staged_shape=G["V"].get("shape"), first=(F["V"].get("data") or [])[:6]))
+            ctx.sample(dict(pipeline=op, args=cr.m["args"], fused_shape=F["V"].get("shape"), staged_shape=Gs["V"].get("shape"), first=(F["V"].get("data") or [])[:6]))
+    # ---- part C: generated pipelines (compile-probed allow-list), fused vs staged vs NumPy
+    gh = GenHarness(ctx.tier, ctx.seed)
+    sup = G.load_supported()
+    if not gh.cases:
+        ctx.inconc("no generated pipeline (empty allow-list vf/c10_supported.json?)")
+        ngen, per_gen = 0, {}
+    else:
+        ngen, gcrash, per_gen = check_generated(ctx, gh, acc)
+        ncrash += gcrash
+    table = sorted(per_gen.values(), key=lambda e: (e["structure"], e["stages"]))
+    classes = {}
+    for e in table:
+        classes[e["structure"]] = classes.get(e["structure"], 0) + 1
     ctx.rule = ("part A: every case of the value-level generators %s re-read through lazy/eval-row/eval-col(+raw buffer)/supplied-output routes; "
-                "part B: %d pipeline cases over 16 pipelines (chains of 2 and 3, binary trees) with seeded NumPy-valid arguments, fused vs staged vs NumPy. "
-                "distinct = (op, arguments) with more than one result element" % ([n for n, _ in value_modules()], len(pcases)))
+                "part B: %d pipeline cases over 16 hand-written pipelines (chains of 2 and 3, binary trees) with seeded NumPy-valid arguments, fused vs staged vs NumPy; "
+                "part C: %d cases over %d GENERATED pipelines %s (deterministic core + VERIF_SEED-chosen translation units of the compile-probed allow-list), "
+                "fused vs staged vs NumPy model + the route rules for both. "
+                "distinct = (op, arguments) with more than one result element" % ([n for n, _ in value_modules()], len(pcases), ngen, len(table), classes))
     ctx.set("value_modules", per_mod)
     ctx.set("pipeline_cases", npipe)
+    ctx.set("generated_pipeline_cases", ngen)
+    ctx.set("generated_translation_units", len(gh.chunks))
+    ctx.set("generated_pipelines", [dict(structure=e["structure"], stages=e["stages"], cases=e["cases"]) for e in table])
+    ctx.set("generated_pipelines_without_cases", [e["stages"] for e in table if e["cases"] == 0])
+    ctx.set("generated_allow_list", dict(stages=len(G.STAGES), supported=len(sup.get("supported", [])), rejected=len(sup.get("rejected", [])),
+                                         excluded_pending_triage=G.exclusion_summary()))
     ctx.set("hook_events", acc.summary())
     ctx.set("crashes_contained", ncrash)
     if npipe == 0:
         ctx.inconc("no pipeline executed")
+    if gh.cases and ngen == 0:
+        ctx.inconc("no generated pipeline executed")
